@@ -575,7 +575,7 @@ class Interp:
                 frame.env[h.name] = ("exc", typ)
             r = self.exec_block(h.body, frame, hs)
             if r is not None:
-                outs.append((_State(st.conds, st.loops), frame.env))
+                outs.append((r if end is None else _State(st.conds, st.loops), frame.env))
         if not outs:
             frame.env = env_body
             res = None
@@ -588,7 +588,8 @@ class Interp:
                 vals = [e.get(k, ("unbound", k)) for _, e in outs]
                 merged[k] = vals[0] if all(v == vals[0] for v in vals) else ("phi", tuple(vals))
             frame.env = merged
-            res = _State(st.conds, st.loops)
+            # the body always leaves (return / raise): execution continues only through a handler - keep its condition
+            res = outs[0][0] if (end is None and len(outs) == 1) else _State(st.conds, st.loops)
         if s.finalbody:
             r = self.exec_block(s.finalbody, frame, res or st)
             if r is None:
